@@ -8,6 +8,7 @@ replaces an earlier row for the same (seed, check):
   3-final.out    every seed of a property whose check changed after 1-main (round 5 additions), /repo afec69b
   4-*.out        later targeted runs
   5-round6.out   the 40 changes of round 6 against the final checks, /repo e0e1cd9
+  6-round7.out   the 8 changes of round 7, own check, /repo e0e1cd9 (C18-1 after the addition it caused)
 """
 import glob, os, re, subprocess, collections
 
@@ -38,7 +39,7 @@ def main():
     seeds = sorted({k[0] for k in rows})
     detected = {s: any(rows[k][2] == "1" for k in rows if k[0] == s) for s in seeds}
     out = []
-    out.append("# Sweep of all %d seeded changes (rounds 1-6) against the final checks\n" % len(seeds))
+    out.append("# Sweep of all %d seeded changes (rounds 1-7) against the final checks\n" % len(seeds))
     out.append("Run by `tools/parsweep.sh` on copies of the repository and of /verif, three or four changes at a time, quick tier; "
                "ported patches where the original no longer applies to the repaired tree. Exit 1 = VIOLATION reported; `exhaustive=false` "
                "means a unit was cut short (a hang watchdog or a worker death attributed to a case - both are findings). The raw outputs are in "
